@@ -64,7 +64,7 @@ func (f *Dox) Call(s *slip.Scope, args slip.List, depth int) (result slip.Object
 	slip.CheckArgCount(s, depth, f, args, 2, -1)
 	ns := s.NewScope()
 	d2 := depth + 1
-	steps, test, rforms := setupDo(ns, ns, args, d2)
+	steps, test, rforms, ns := setupDo(ns, ns, args, d2)
 	for {
 		if ns.Eval(test, d2) != nil {
 			for _, rf := range rforms {
@@ -93,7 +93,7 @@ func (f *Dox) Call(s *slip.Scope, args slip.List, depth int) (result slip.Object
 		}
 		for _, sb := range steps {
 			if sb.hasStep {
-				ns.UnsafeLet(sb.sym, ns.Eval(sb.step, d2))
+				sb.scope.UnsafeLet(sb.sym, ns.Eval(sb.step, d2))
 			}
 		}
 	}
